@@ -358,27 +358,37 @@ CancelDeliver(j) ==
 
 IsDone(j) == \A t \in Tasks(j) : stage[j][t] \notin {"waiting", "running"}
 
-\* stages that checkStatus marks canceled: a dependency errored (not allow_failure) or canceled;
-\* the chain of no-op passes that propagates the mark is collapsed (no notification is sent)
-RECURSIVE Blocked(_, _, _)
-Blocked(j, sg, n) ==
-  IF n = 0 THEN sg
-  ELSE Blocked(j, [t \in DOMAIN sg |-> IF sg[t] = "waiting" /\ \E d \in DepsOf(Ver(j), t) :
-                                           (sg[d] = "error" /\ ~Ver(j).tasks[d].allow) \/ sg[d] = "canceled"
-                                        THEN "canceled" ELSE sg[t]], n - 1)
+\* One pass of the loop body over g.Nodes().  The nodes live in a Go map, so the visiting order is arbitrary (ord), and a
+\* visited stage sees what earlier visits of the same pass did: checkStatus marks a waiting stage canceled if one of its
+\* dependencies is canceled or in error (not allow_failure) - without any notification - and the stage is started if all
+\* its dependencies are done.  The goroutine of a task with an empty script returns at once: it may already be done when
+\* the next stage is visited (t \in vis) or only after the pass; a canceled mark therefore needs between one pass and
+\* one pass per level of the graph to reach every dependent.
+RECURSIVE Visit(_, _, _, _, _, _)
+Visit(j, sg, R, ord, i, vis) ==
+  IF i > Len(Ver(j).tasks) THEN [sg |-> sg, R |-> R]
+  ELSE LET t == ord[i]
+           deps == DepsOf(Ver(j), t)
+       IN IF sg[t] # "waiting" THEN Visit(j, sg, R, ord, i + 1, vis)
+          ELSE IF \E d \in deps : (sg[d] = "error" /\ ~Ver(j).tasks[d].allow) \/ sg[d] = "canceled"
+               THEN Visit(j, [sg EXCEPT ![t] = "canceled"], R, ord, i + 1, vis)
+               ELSE IF \A d \in deps : sg[d] = "done" \/ (sg[d] = "error" /\ Ver(j).tasks[d].allow)
+                    THEN Visit(j, [sg EXCEPT ![t] = IF Ver(j).tasks[t].empty /\ t \in vis THEN "done" ELSE "running"], R \cup {t}, ord, i + 1, vis)
+                    ELSE Visit(j, sg, R, ord, i + 1, vis)
 
-Ready(j, sg) == {t \in Tasks(j) : sg[t] = "waiting" /\ \A d \in DepsOf(Ver(j), t) :
-                    sg[d] = "done" \/ (sg[d] = "error" /\ Ver(j).tasks[d].allow)}
+EmptyTasks(j) == {t \in Tasks(j) : Ver(j).tasks[t].empty}
+PassOutcomes(j) == {Visit(j, stage[j], {}, ord, 1, vis) : ord \in Permutations(Tasks(j)), vis \in SUBSET {t \in EmptyTasks(j) : stage[j][t] = "waiting"}}
 
 SchedPass(j) ==
   IF IsDone(j) \/ sched[j].cancelled
   THEN /\ sched' = [sched EXCEPT ![j].pc = "exited"]
        /\ UNCHANGED <<stage, running, job, runs, logs, persist>>
-  ELSE LET sg1 == Blocked(j, stage[j], Len(Ver(j).tasks))
-           R == Ready(j, sg1)
+  ELSE \E oc \in PassOutcomes(j) :
+       LET sg1 == oc.sg
+           R == oc.R
            E == {t \in R : Ver(j).tasks[t].empty}      \* empty script: Run returns at once, no callbacks
            exec == job[j].present /\ IsRunning(job, j)
-       IN /\ stage' = [stage EXCEPT ![j] = [t \in DOMAIN sg1 |-> IF t \in E THEN "done" ELSE IF t \in R THEN "running" ELSE sg1[t]]]
+       IN /\ stage' = [stage EXCEPT ![j] = [t \in DOMAIN sg1 |-> IF t \in E THEN "done" ELSE sg1[t]]]
           /\ running' = [running EXCEPT ![j] = @ \cup (R \ E)]
           /\ job' = IF job[j].present
                     THEN [job EXCEPT ![j].rep = [t \in DOMAIN @ |-> IF t \in E THEN [@[t] EXCEPT !.status = "done"]
